@@ -54,11 +54,11 @@ def frow(l):
     return "[" + "; ".join(f"({k}%N, {Q.fhex(float.fromhex(v))})" for k, v in l) + "]"
 
 
-def floateval_stream(rng, ncases, streams, viol, samples):
+def floateval_stream(rng, ncases, streams, viol, samples, which=("decay",)):
     names, stable = U.dataset_names()
     cases = [c for c in D.gen_cases(rng, names, stable, ncases, max(2, ncases // 3), "Inventory") if "pre" not in c and c["unit"] == "num"]
     for c in cases:
-        c["cum"] = True
+        c["cum"] = "cum" in which
     impl = U.run_impl("impl_floateval.py", cases, timeout=3000)
     terms, tmap, bad_prop = [], [], []
     cterms, cmap, ncrows = [], [], 0
@@ -77,9 +77,10 @@ def floateval_stream(rng, ncases, streams, viol, samples):
             ncrows += len(r["rows_cum"])
             cterms.append(f"({Q.fhex(float.fromhex(r['secs']))}, {frow(r['e_cum'])}, {frow(r['n0'])}, {crows})")
             cmap.append(kk)
-    cbad, cerrs = Q.run_cases("floatcum", PRE_CUM, "float * frow * frow * list (N * list N * list N * float * float)", cterms, "chk_cum",
+    cbad, cerrs = ([], []) if not cterms else Q.run_cases("floatcum", PRE_CUM, "float * frow * frow * list (N * list N * list N * float * float)", cterms, "chk_cum",
                               shard=12, timeout=1500)
-    streams["cumulative_bitlevel"] = {"cases": len(cterms), "entries": ncrows, "model_disagrees": len(cbad), "coq_errors": len(cerrs),
+    if "cum" in which:
+      streams["cumulative_bitlevel"] = {"cases": len(cterms), "entries": ncrows, "model_disagrees": len(cbad), "coq_errors": len(cerrs),
                                       "what": "Inventory.cumulative_decays vs the primitive-float model (same product chain with the diagonal "
                                               "(1-exp(-lambda t))/lambda observed, then one multiplication by the float decay constant): bit-identical; "
                                               "side conditions and accuracy of the stored diagonal checked per case"}
@@ -90,6 +91,8 @@ def floateval_stream(rng, ncases, streams, viol, samples):
                                  "input": cases[kk], "observed_rows": impl[kk]["rows_cum"][:3]}})
     if cerrs:
         viol.append({"name": "cum-bitlevel-coq", "found_input": False, "key": "cum-bitlevel-coq", "payload": {"broken": "Coq evaluation failed", "errors": cerrs[:2]}})
+    if "decay" not in which:
+        return
     bad, errs = Q.run_cases("floateval", PRE, "float * frow * frow * list (N * list N * list N * float)", terms, "chk", shard=12, timeout=1500)
     streams["decay_bitlevel"] = {"cases": len(cases), "entries": nrows, "model_disagrees": len(bad), "impl_property_failures": len(bad_prop),
                                  "coq_errors": len(errs),
